@@ -105,7 +105,9 @@ func buildScratch(race bool) (string, string, map[string]int, error) {
 	bin := filepath.Join(scratch, "h.test")
 	args := []string{"test", "-c", "-vet=off", "-o", bin}
 	if race {
-		args = append(args, "-race")
+		// the simulator and the shims are compiled without race instrumentation and without
+		// inlining into instrumented callers: their state is the scheduler's, not the program's
+		args = append(args, "-race", "-gcflags=bbsim/simrt=-race=false -l", "-gcflags=bbsim/shim/...=-race=false -l")
 	}
 	args = append(args, "./harness")
 	cmd := exec.Command(goBin, args...)
@@ -261,7 +263,8 @@ func cmdCheck(args []string) int {
 			cmd := exec.Command(bin, "-test.run", "^TestWorker$", "-test.timeout", "0", "-test.cpu", "1",
 				"-prop", *prop, "-seed", strconv.FormatUint(seed, 10), "-from", strconv.Itoa(w), "-stride", strconv.Itoa(W),
 				"-count", strconv.Itoa(per), "-wall", fmt.Sprint(tc.wallS), "-out", outs[w], "-replaydir", filepath.Join(verifDir, "replays"))
-			cmd.Env = append(os.Environ(), "GOMAXPROCS=2", "GORACE=halt_on_error=0 log_path="+filepath.Join(scratch, fmt.Sprintf("race.%d", w)))
+			rl := filepath.Join(scratch, fmt.Sprintf("race.%d", w))
+			cmd.Env = append(os.Environ(), "GOMAXPROCS=2", "GORACE=halt_on_error=0 log_path="+rl, "BBSIM_RACELOG="+rl)
 			// watchdog: a worker that outlives its wall cap by far is infrastructure trouble
 			done := make(chan struct{})
 			var out []byte
@@ -366,6 +369,11 @@ func cmdCheck(args []string) int {
 	knownHits := map[int]bool{}
 	for _, v := range viols {
 		ok, detail := replayOnce(bin, v.Replay)
+		for try := 0; !ok && isRace && try < 4; try++ {
+			// the race detector's shadow memory is bounded and its eviction is not seeded: a report can be
+			// missed on an identical execution, so a race violation gets a few fresh processes to recur
+			ok, detail = replayOnce(bin, v.Replay)
+		}
 		if !ok {
 			infra = append(infra, fmt.Sprintf("violation %s of run %d did not replay identically in a fresh process: %s", v.Check, v.RunIndex, detail))
 			continue
@@ -429,6 +437,8 @@ func firstLines(s string, n int) string {
 
 func replayOnce(bin, path string) (bool, string) {
 	cmd := exec.Command(bin, "-test.run", "^TestWorker$", "-test.timeout", "0", "-replay", path)
+	rl := filepath.Join(filepath.Dir(bin), fmt.Sprintf("race.replay.%d", time.Now().UnixNano()))
+	cmd.Env = append(os.Environ(), "GORACE=halt_on_error=0 log_path="+rl, "BBSIM_RACELOG="+rl)
 	out, err := cmd.CombinedOutput()
 	for _, line := range strings.Split(string(out), "\n") {
 		if strings.HasPrefix(line, "{") && strings.Contains(line, `"kind":"replay"`) {
@@ -471,6 +481,8 @@ func cmdReplay(args []string) int {
 		a = append(a, "-v2")
 	}
 	cmd := exec.Command(bin, a...)
+	rl := filepath.Join(scratch, "race.replay")
+	cmd.Env = append(os.Environ(), "GORACE=halt_on_error=0 log_path="+rl, "BBSIM_RACELOG="+rl)
 	out, _ := cmd.CombinedOutput()
 	fmt.Print(string(out))
 	for _, line := range strings.Split(string(out), "\n") {
